@@ -38,6 +38,7 @@ import (
 	"errors"
 	"fmt"
 	"io"
+	"regexp"
 	"strings"
 
 	"mellium.im/sasl"
@@ -491,6 +492,11 @@ func runClient(r *common.Run, c cliCase, class string) error {
 		obs = "PANIC"
 	}
 	line := c.line()
+	if _, ok := realMech(t.used); ok {
+		// real mechanisms use random nonces: replace every payload by an index in order
+		// of first appearance (in the line first, then in the observation)
+		line, obs = canonPayloads(line, obs)
+	}
 	r.Line(line, obs)
 	r.Case(line, true, class+":"+errc)
 
@@ -571,6 +577,26 @@ func runClient(r *common.Run, c cliCase, class string) error {
 		}
 	}
 	return nil
+}
+
+var payloadRe = regexp.MustCompile(`v[0-9a-f]{2,}`)
+
+// canonPayloads renames the byte strings of a case (v<hex> tokens) to vf0<nn> in order
+// of first appearance, consistently in the line and the observation.
+func canonPayloads(line, obs string) (string, string) {
+	names := map[string]string{}
+	ren := func(s string) string {
+		return payloadRe.ReplaceAllStringFunc(s, func(m string) string {
+			if n, ok := names[m]; ok {
+				return n
+			}
+			n := fmt.Sprintf("vf0%02x", len(names))
+			names[m] = n
+			return n
+		})
+	}
+	line = ren(line)
+	return line, ren(obs)
 }
 
 // ---- server role -----------------------------------------------------------------------
@@ -948,6 +974,9 @@ func plainPayloads() []string {
 
 // Run is the C03 runner.
 func Run(r *common.Run) error {
+	// common.NewRand(seed+1) is common.NewRand(seed) shifted by one draw, and r.Case
+	// consumes draws: fork once so that different seeds give unrelated case streams
+	rnd := r.Rnd.Fork()
 	if r.Replay != "" {
 		lines, err := common.ReplayLines(r.Replay)
 		if err != nil {
@@ -1030,14 +1059,14 @@ func Run(r *common.Run) error {
 	// ---- client role: random longer scripts ----
 	nr := r.Pick(1500, 20000)
 	for i := 0; i < nr; i++ {
-		sc := scripts[r.Rnd.Intn(len(scripts))]
-		n := 3 + r.Rnd.Intn(5)
+		sc := scripts[rnd.Intn(len(scripts))]
+		n := 3 + rnd.Intn(5)
 		peer := make([]string, n)
 		for k := range peer {
-			if r.Rnd.Chance(3, 5) {
-				peer[k] = []string{"cv01", "c-", "cv0203"}[r.Rnd.Intn(3)]
+			if rnd.Chance(3, 5) {
+				peer[k] = []string{"cv01", "c-", "cv0203"}[rnd.Intn(3)]
 			} else {
-				peer[k] = cliAlphabet[r.Rnd.Intn(len(cliAlphabet))]
+				peer[k] = cliAlphabet[rnd.Intn(len(cliAlphabet))]
 			}
 		}
 		_ = runClient(r, cliCase{mechs: []string{"M2", "M1"}, adv: []string{"M1", "M3"}, steps: sc, peer: peer}, "cli-random")
@@ -1086,20 +1115,20 @@ func Run(r *common.Run) error {
 	// ---- server role: random ----
 	nr = r.Pick(1000, 15000)
 	for i := 0; i < nr; i++ {
-		sc := sscripts[r.Rnd.Intn(len(sscripts))]
-		n := 2 + r.Rnd.Intn(5)
+		sc := sscripts[rnd.Intn(len(sscripts))]
+		n := 2 + rnd.Intn(5)
 		peer := make([]string, n)
 		for k := range peer {
 			switch {
-			case k == 0 && r.Rnd.Chance(4, 5):
-				peer[k] = []string{"AM1/v01", "AM2/-", "APLAIN/" + plainPayloads()[r.Rnd.Intn(4)]}[r.Rnd.Intn(3)]
-			case r.Rnd.Chance(3, 5):
-				peer[k] = []string{"Rv02", "R-", "Req"}[r.Rnd.Intn(3)]
+			case k == 0 && rnd.Chance(4, 5):
+				peer[k] = []string{"AM1/v01", "AM2/-", "APLAIN/" + plainPayloads()[rnd.Intn(4)]}[rnd.Intn(3)]
+			case rnd.Chance(3, 5):
+				peer[k] = []string{"Rv02", "R-", "Req"}[rnd.Intn(3)]
 			default:
-				peer[k] = srvAlphabet[r.Rnd.Intn(len(srvAlphabet))]
+				peer[k] = srvAlphabet[rnd.Intn(len(srvAlphabet))]
 			}
 		}
-		perm := []string{"any", "none", uh + "/" + ph}[r.Rnd.Intn(3)]
+		perm := []string{"any", "none", uh + "/" + ph}[rnd.Intn(3)]
 		_ = runServer(r, srvCase{mechs: []string{"M2", "PLAIN", "M1"}, steps: sc, perm: perm, peer: peer}, "srv-random")
 	}
 	return nil
